@@ -547,6 +547,14 @@ class Gen:
         if ps[0] == "empty":
             tk.add(")")
             return NONE
+        if ps[0] == "idlist":
+            ids = []
+            for j, n in enumerate(ps[1]):
+                if j:
+                    tk.add(",")
+                ids.append(N("ID", [S(n)], tk.add(n)))
+            tk.add(")")
+            return N("ParamList", [L(ids)])
         if ps[0] == "void":
             tk.add("void")
             tk.add(")")
@@ -584,8 +592,21 @@ class Gen:
         r = self.rng
         members = []
         for _ in range(r.randint(1, 3)):
-            if r.random() < 0.25:
+            k = r.random()
+            if k < 0.2:
                 members.append(("bit", self.base(), self.fresh("m") if r.random() < 0.8 else None, str(r.randint(1, 7))))
+            elif k < 0.4:
+                # a declarator list mixing plain members, named bit-fields and unnamed bit-fields in any position
+                ds = []
+                for _ in range(r.randint(2, 4)):
+                    kk = r.random()
+                    if kk < 0.35:
+                        ds.append(("bf", self.fresh("m"), r.choice(["1", "3", "7", "0x4", "010", "0b11", "2u"])))
+                    elif kk < 0.6:
+                        ds.append(("bf", None, r.choice(["1", "2", "0", "0x3"])))
+                    else:
+                        ds.append(("plain", self.derivs(1), self.fresh("m")))
+                members.append(("mixed", ("names", r.choice([["unsigned"], ["int"], ["unsigned", "int"], ["signed", "char"], ["long"]])), ds))
             else:
                 members.append(("mem", self.base() if depth <= 0 or r.random() < 0.8 else self.structdef(depth - 1),
                                 [(self.derivs(1), self.fresh("m")) for _ in range(r.randint(1, 2))]))
@@ -607,6 +628,21 @@ class Gen:
                 width = N("Constant", [S("int"), S(m[3])], i)
                 ty = N("TypeDecl", [S(m[2]) if m[2] else NONE, strs([]), NONE, bn], ni if m[2] else None)
                 decls.append(N("Decl", [S(m[2]) if m[2] else NONE, strs([]), L([]), L([]), L([]), ty, NONE, width]))
+            elif m[0] == "mixed":
+                bn = self.emit_base(m[1], tk)
+                for j, d in enumerate(m[2]):
+                    if j:
+                        tk.add(",")
+                    if d[0] == "plain":
+                        chain, _ = self.emit_declarator(d[1], d[2], tk)
+                        decls.append(N("Decl", [S(d[2]), strs([]), L([]), L([]), L([]), chain(bn, []), NONE, NONE]))
+                    else:
+                        ni = tk.add(d[1]) if d[1] is not None else None
+                        tk.add(":")
+                        i = tk.add(d[2])
+                        width = N("Constant", [S(int_type(d[2])), S(d[2])], i)
+                        ty = N("TypeDecl", [S(d[1]) if d[1] else NONE, strs([]), NONE, bn], ni)
+                        decls.append(N("Decl", [S(d[1]) if d[1] else NONE, strs([]), L([]), L([]), L([]), ty, NONE, width]))
             else:
                 bn = self.emit_base(m[1], tk)
                 for j, (ders, name) in enumerate(m[2]):
@@ -707,8 +743,17 @@ class Gen:
             pre.append(("al", extra["align"]))
         prng = random.Random(extra["perm"])
         prng.shuffle(pre)
+        # C allows declaration specifiers in any order: some of them go AFTER the type specifier (`int static x;`, `long const typedef L;`)
+        post = [it for it in pre if prng.random() < 0.25 and it != ("q", "_Atomic")]    # `_Atomic (` would read as the _Atomic(type) specifier (C11 6.7.2.4p4)
+        pre = [it for it in pre if it not in post]
+        post = post + [("q", q) for q in extra["post_quals"]]
+        prng.shuffle(post)
         storage_o, quals_o, fs_o, align_nodes = [], [], [], []
-        for kind, x in pre:
+        bn = None
+        for kind, x in pre + [("base", None)] + post:
+            if kind == "base":
+                bn = self.emit_base(base, tk)
+                continue
             if kind == "st":
                 tk.add(x); storage_o.append(x)
             elif kind == "q":
@@ -721,9 +766,6 @@ class Gen:
                 an = self.emit_expr(x[1], tk, 3) if x[0] == "expr" else self.emit_typename(x[1], tk)
                 tk.add(")")
                 align_nodes.append(N("Alignas", [an], ai))
-        bn = self.emit_base(base, tk)
-        for q in extra["post_quals"]:
-            tk.add(q); quals_o.append(q)
         storage, quals = storage_o, quals_o
         out = []
         for j, (ders, name, init) in enumerate(decls):
@@ -990,13 +1032,26 @@ class Gen:
         ps = self.params(1)
         if ps[0] == "list":
             ps = ("list", [(b, d, n if (n is not None or r.random() < 0.25) else self.fresh("p"), q) for b, d, n, q in ps[1]], ps[2])
+        kr = None
+        if r.random() < 0.12:
+            # old-style (K&R) definition: identifier list, then one declaration per group of parameters
+            names = [self.fresh("p") for _ in range(r.randint(1, 5))]
+            ps = ("idlist", names)
+            kr, rest = [], list(names)
+            r.shuffle(rest)
+            while rest:
+                take = rest[: r.randint(1, 2)]
+                rest = rest[len(take):]
+                kr.append(("decl", [r.choice(["register"])] if r.random() < 0.15 else [], r.sample(["const", "volatile"], r.randint(0, 1)),
+                           ("names", r.choice(self.BASES)), [(self.derivs(1), n, None) for n in take]))
         body = ("compound", [self.block_item(depth) for _ in range(r.randint(0, 4))])
         storage = [r.choice(["static", "extern"])] if r.random() < 0.2 else []
         fspec = ["inline"] if r.random() < 0.1 else []
-        return ("funcdef", storage, fspec, self.base(allow_void=True), self.derivs(1)[:1] if r.random() < 0.2 else [], name, ps, body)
+        return ("funcdef", storage, fspec, self.base(allow_void=True), self.derivs(1)[:1] if r.random() < 0.2 else [], name, ps, body, kr)
 
     def emit_funcdef(self, f, tk):
-        _, storage, fspec, base, retders, name, ps, body = f
+        _, storage, fspec, base, retders, name, ps, body = f[:8]
+        kr = f[8] if len(f) > 8 else None
         retders = [d for d in retders if d[0] == "ptr"]
         for s in storage:
             tk.add(s)
@@ -1006,8 +1061,14 @@ class Gen:
         chain, nidx = self.emit_declarator([("fun", ps)] + retders, name, tk)
         ty = chain(bn, [])
         decl = N("Decl", [S(name), strs([]), L([]), strs(storage), strs(fspec), ty, NONE, NONE], nidx[0])
+        pd = NONE
+        if kr is not None:
+            pds = []
+            for d in kr:
+                pds += self.emit_declaration(d, tk, register=False)
+            pd = L(pds)
         b = self.emit_stmt(body, tk)[0]
-        return N("FuncDef", [decl, NONE, b], nidx[0])
+        return N("FuncDef", [decl, pd, b], nidx[0])
 
     def program(self, size=4, depth=2):
         """-> (tokens, expected FileAST)"""
